@@ -7,6 +7,7 @@ package fixture
 import (
 	"encoding/json"
 	"net/http"
+	"net/url"
 	"os"
 	"sort"
 	"strings"
@@ -64,3 +65,15 @@ func DecodesPtr(b []byte) (*doc, error) {
 	}
 	return p, nil
 }
+
+// DeadAppend loses the appended element: nobody reads xs afterwards.
+func DeadAppend(xs []string, flag bool) int {
+	n := len(xs)
+	if flag {
+		xs = append(xs, "lost")
+	}
+	return n
+}
+
+// SameHost compares two URLs by bare host name (scheme and port are lost).
+func SameHost(a, b *url.URL) bool { return a.Hostname() == b.Hostname() }
